@@ -29,6 +29,8 @@ use vsim::SimProvider;
 
 pub use vref::update::Rr;
 
+pub mod kinds;
+
 pub const ORIGIN: &str = "z.";
 /// Virtual wall clock used by the update checks (vsim's default).
 pub const NOW: u64 = 1_700_000_000;
